@@ -1774,7 +1774,13 @@ class Engine:
                              'a normal exit is reachable', expect='sat-any'))
       elif oc == RAISE:
         name = val.name if isinstance(val, Callable_) else 'Exception'
-        if name in raises:
+        if name in u.get('may_raise', {}):
+          tmp = St()
+          tmp.env, tmp.pc = old_env, s2.pc
+          f = self.spec_formula(u['may_raise'][name], tmp)
+          self.emit(s2, 'raise-only-if', f, None, 'raises %s only if %s' % (name, u['may_raise'][name]),
+                    tag='[%s]' % name)
+        elif name in raises:
           tmp = St()
           tmp.env, tmp.pc = old_env, s2.pc
           f = self.spec_formula(raises[name], tmp)
